@@ -527,7 +527,9 @@ def spec_classes(tr, b, parsed_by_data):
     # the packets the reply must be based on: all distinct packets delivered by this source (`tc_pass`), which is what
     # the listener assembled unless it lost some -- then `tc_pass` has already reported it
     pkts = [parsed_by_data[d] for d in (b.get("want") or asm["datas"])]
-    seen = {i: (c, ttl) for (i, c, ttl) in asm["seen"]}
+    # "the host saw the record multicast": the copy in the cache whatever scope id it carries (`seen_blind`, provided by reply_common
+    # once the IPv6-only host of wp-C11DEEP is merged: D29); until then the store entry under the record's own key
+    seen = {i: (c, ttl) for (i, c, ttl) in asm.get("seen_blind", asm["seen"])}
     probe = any(p["num_auth"] > 0 for p in pkts)
     known = {}
     for p in pkts:
@@ -831,11 +833,13 @@ def trace_case(seed, sc_no, box):
             "services": [(i.name, i.server, i.host_ttl, i.other_ttl) for i in box.get("infos", [])], "actions": box.get("actions")}
 
 
-def run_trace_stream(ctx, res, n, only=None):
+def run_trace_stream(ctx, res, n, only=None, n_extra=None):
     lines, boxes = [], []
     # n ordinary scenarios, plus n/8 in which services are unregistered while answers are queued (numbered from UNREG_BASE)
-    todo = only if only is not None else [(ctx["seed"], k) for k in range(n)] + [(ctx["seed"], UNREG_BASE + k) for k in range(n // 8)] + \
-        [(ctx["seed"], LATE_BASE + k) for k in range(n // 16)]
+    # (the two extra families are not multiplied when the search is widened: they are slower per scenario)
+    ne = n if n_extra is None else n_extra
+    todo = only if only is not None else [(ctx["seed"], k) for k in range(n)] + [(ctx["seed"], UNREG_BASE + k) for k in range(ne // 8)] + \
+        [(ctx["seed"], LATE_BASE + k) for k in range(ne // 16)]
     for (seed, sc_no) in todo:
         box = run_scenario(seed, sc_no)
         if "tr" not in box:
@@ -1051,13 +1055,14 @@ def run(ctx):
                 "boundaries, library jitter biased to both ends); non-trivial = distinct shape (block kinds, #assemblies, #multicasts) with at least one reply")
     bq = C.Budget(ctx["tier"], 6000, 120000).n
     bt = C.Budget(ctx["tier"], 2000, 40000).n
+    bt0 = bt
     if ctx["widened"]:
         bq *= 3
         bt *= 3
     run_corpus(ctx, res)
     run_cls_stream(ctx, res)
     run_queue_stream(ctx, res, bq)
-    run_trace_stream(ctx, res, bt)
+    run_trace_stream(ctx, res, bt, n_extra=bt0)
     return res
 
 
